@@ -998,7 +998,8 @@ def _o_orderbig(stats, item):
     """order_stats('c') for sample sizes at and beyond the 32-bit integer limits (n = 2**31 - 1 ... 1e12), small ranks and
     1 - p of the order of 1/n: against the binomial tail summed in log space (the r leading terms; exact to ~1e-12)"""
     n, r, lam = item["n"], item["r"], item["lam"]
-    q = lam / n
+    pf = 1.0 - lam / n   # the API takes p: 1 - p as the routine sees it is not lam / n exactly (cancellation)
+    q = 1.0 - pf
     out = []
     tot = 0.0
     for k in range(r):
@@ -1006,7 +1007,7 @@ def _o_orderbig(stats, item):
         tot += math.exp(lc + k * math.log(q) + (n - k) * math.log1p(-q))
     want = 1.0 - tot
     for form, nn in (("int", n), ("float", float(n)), ("array", np.array([n]))):
-        v = _call(stats.order_stats, "c", p=1.0 - q, n=nn, r=r)
+        v = _call(stats.order_stats, "c", p=pf, n=nn, r=r)
         try:
             val = float(np.asarray(v).ravel()[0])
         except Exception:  # noqa: BLE001
